@@ -339,9 +339,14 @@ func (P *Program) synthHandlers() {
 			b.Requires = append(b.Requires, ls.Invariants...)
 		}
 		b.Requires = append(b.Requires, oc.Requires...)
-		// the (single) inner loop of the case is loop 1 of the handler
-		for _, ls := range oc.Loops {
-			b.Loops[1] = ls
+		// the inner loops of the case are loops 1..k of the handler, in order
+		var nums []int
+		for n := range oc.Loops {
+			nums = append(nums, n)
+		}
+		sort.Ints(nums)
+		for i, n := range nums {
+			b.Loops[i+1] = oc.Loops[n]
 		}
 		P.Blocks[name] = b
 		P.BlockL = append(P.BlockL, b)
